@@ -29,7 +29,7 @@ func init() {
 				"all members or panics. R7: the constructor used for a recognised device is built from that profile's blocking mode " +
 				"and filtered-response TTL. R8: every rule-list engine (shared lists, blocked services, safe search) has a result cache of its own, so a cached verdict of one source is never returned for another.",
 			NotCovered: "what the urlfilter engine matches and the allow/block priority inside GetDNSBasicRule (library); equality of verdicts over all rule-list contents.",
-			Rules: map[string]string{"C02-R1": "request-filter order", "C02-R2": "FilterRequest precedence", "C02-R17": "pooled per-request filtering state is fully re-initialised; rule-list gathering loops skip (never stop at) an unknown element", "C02-R15": "the profile's rule-list IDs keep the configured order through the backend conversion (the first list with a matching rewrite wins, so reordering changes verdicts)", "C02-R13": "blocking-mode fields (custom IPv4 / IPv6 answers) are converted name-to-name by the backend and file-cache codecs", "C02-R11": "mainmw.filterRequest / filterResponse: the filter is asked about this request and this upstream answer; a CNAME rewrite makes the rewritten question go upstream and restores ID, question and a leading CNAME on the way back instead of response filtering", "C02-R10": "in-place refreshable lists (safe search): engine swap and cache clear in one write-locked section, queries under the lock (shared with C12-R1/R2)", "C02-R3": "rule-list consultation order and rewrite priority",
+			Rules: map[string]string{"C02-R18": "objects built per filtering group / profile in conversion loops take no slice carried across iterations (shared backing array or accumulation)", "C02-R1": "request-filter order", "C02-R2": "FilterRequest precedence", "C02-R17": "pooled per-request filtering state is fully re-initialised; rule-list gathering loops skip (never stop at) an unknown element", "C02-R15": "the profile's rule-list IDs keep the configured order through the backend conversion (the first list with a matching rewrite wins, so reordering changes verdicts)", "C02-R13": "blocking-mode fields (custom IPv4 / IPv6 answers) are converted name-to-name by the backend and file-cache codecs", "C02-R11": "mainmw.filterRequest / filterResponse: the filter is asked about this request and this upstream answer; a CNAME rewrite makes the rewritten question go upstream and restores ID, question and a leading CNAME on the way back instead of response filtering", "C02-R10": "in-place refreshable lists (safe search): engine swap and cache clear in one write-locked section, queries under the lock (shared with C12-R1/R2)", "C02-R3": "rule-list consultation order and rewrite priority",
 				"C02-R4": "network rules before hosts rules", "C02-R5": "filter selection", "C02-R6": "response shaping and exhaustiveness", "C02-R7": "profile constructor provenance", "C02-R8": "one result cache per rule-list engine"},
 		}})
 }
@@ -453,6 +453,47 @@ func runC02(c *an.Ctx) {
 	checkSumSwitch(c, "C02-R6", mm+"setFilteredResponse", "filter/internal.Result")
 	checkSumSwitch(c, "C02-R6", mm+"setFilteredResponseNoReq", "filter/internal.Result")
 	checkSumSwitch(c, "C02-R6", "dnsmsg.(*Constructor).NewBlockedResp", "dnsmsg.BlockingMode")
+	// the custom-IP shape: the configured addresses of the question's own family, NODATA (never an error, which
+	// would make the caller fall back to the upstream answer) for every other type or an empty family
+	typeA, _ := c.ConstInt("github.com/miekg/dns", "TypeA")
+	typeAAAA, _ := c.ConstInt("github.com/miekg/dns", "TypeAAAA")
+	typeHTTPS, _ := c.ConstInt("github.com/miekg/dns", "TypeHTTPS")
+	decide(c, "C02-R6", "dnsmsg.(*Constructor).newBlockedCustomIPResp", an.DecideCfg{
+		Dom: an.Domain{"p1.Question[0].Qtype": an.Ints(typeA, typeAAAA, typeHTTPS), "len(p2.IPv4)": an.Ints(0, 1), "len(p2.IPv6)": an.Ints(0, 1)},
+		OnCall: func(it *an.Interp, name string, args []an.AV) (an.AV, bool) {
+			switch {
+			case strings.HasSuffix(name, "Constructor).NewBlockedRespIP"):
+				var as []string
+				for _, a := range args[1:] {
+					as = append(as, a.String())
+				}
+				return an.AV{Kind: an.KTuple, Tup: []an.AV{an.NonNil("ipresp(" + strings.Join(as, ",") + ")"), an.Nil()}}, true
+			case strings.HasSuffix(name, "Constructor).NewBlockedRespRCode"):
+				return an.NonNil("rcoderesp(" + args[1].String() + "," + args[2].String() + ")"), true
+			case strings.HasSuffix(name, "Constructor).newSOARecords"):
+				return an.Sym("soa(" + args[1].String() + ")"), true
+			}
+			return an.AV{}, false
+		},
+		Expect: func(f an.Features, o an.AOutcome) string {
+			qt := f.I("p1.Question[0].Qtype")
+			want := "nonnil:rcoderesp(p1,0), nil"
+			switch {
+			case qt == typeA && f.I("len(p2.IPv4)") > 0:
+				want = "nonnil:ipresp(p1,p2.IPv4), nil"
+			case qt == typeAAAA && f.I("len(p2.IPv6)") > 0:
+				want = "nonnil:ipresp(p1,p2.IPv6), nil"
+			}
+			if o.RetString() != want {
+				return want + " (addresses only for their own question type; every other case is NODATA, not an error); got " + o.RetString()
+			}
+			return ""
+		},
+	})
+	// ---- R18: rule-list IDs of one filtering group are not built in a buffer shared with the next group
+	if n := sharedNoLoopCarried(c, "C02-R18", "cmd.", "filter/filterstorage.", "filter."); n >= 0 {
+		c.Ok("C02-R18", "per-group and per-profile filter configurations take no buffer carried over from the previous element", token.NoPos, "%d loops with a slice carried across iterations examined", n)
+	}
 
 	// ---- R8: one result cache per rule-list engine (a shared cache serves one list's verdict for another)
 	c.Floor("C02-R8", 3)
